@@ -172,7 +172,15 @@ type taskCtx struct {
 // (index = getCur()) by the hooks, which have no other way to find their task.
 var tasks []*taskCtx
 
-func (t *taskCtx) yield(kind string) {
+// yieldHere parks the task that is *calling* (found through the goroutine id), not the task
+// that owns the stream: a library that routes one caller's tokens into another caller's
+// destination must show up as a wrong result, not as a broken baton.
+func yieldHere(kind string) {
+	c := getCur()
+	if c < 0 {
+		return
+	}
+	t := tasks[c]
 	if t.held > 0 {
 		t.heldSkips++
 		return
@@ -309,7 +317,7 @@ func (t *taskCtx) main(wg *sync.WaitGroup) {
 		case "racy":
 			fixtureShared++ // deliberate conflicting access: the canary must see a report
 		}
-		t.results[i] = execOp(t.p, t.inputs, op, t.yield)
+		t.results[i] = execOp(t.p, t.inputs, op, yieldHere)
 	}
 	finish(t.reqW, t.id)
 }
